@@ -160,7 +160,12 @@ def gen_sections(rng, n):
         entries = []
         for i in range(rng.randint(1, 5)):
             k = rng.random()
-            if k < 0.35:
+            if k < 0.12:
+                # a typed entry whose TOTAL length happens to be one of the bare-digest lengths
+                alg = rng.choice(["sha256", "md5", "sha1", "sha512"])
+                L = rng.choice([32, 40, 64]) - len(alg) - 1
+                val = "%s:%s" % (alg, rstr(rng, hexd, L, L))
+            elif k < 0.35:
                 val = "%s:%s" % (rng.choice(["sha256", "md5", "sha1", "sha512"]), rstr(rng, hexd, 8, 8))
             elif k < 0.65:
                 L = rng.choice([32, 40, 64])
